@@ -625,3 +625,38 @@ def _mk_recogniser(fn):
 
 
 CONTRACTS += [_mk_recogniser("_is_json_like"), _mk_recogniser("_is_regex")]
+
+
+class ParseJson(Contract):
+    """_parse_json: a JSON token means exactly what json.loads says it means (apostrophes, escapes and nesting included); an invalid
+    token is reported and the JSONDecodeError passed on.  Checked on a fixed family of tokens (concrete execution of the real function)."""
+    target = f"{FP}._parse_json"
+    properties = ("C07",)
+    TOKENS = ['{"a": 1}', '[1, 2.5, null, true]', '{"$eq": "it\'s"}', '["its\',\'it"]', '{"k": "say \\"hi\\""}', '{"n": {"m": [1, {"x": "y z"}]}}', '{"a": 1', "{'a': 1}", '[1,, 2]']
+
+    def cases(self):
+        return [{"token": i} for i in range(len(self.TOKENS))]
+
+    def make_ctx(self, case):
+        ctx = super().make_ctx(case)
+        ctx.callee_contracts["signac._utility._print_err"] = lambda interp, b: None
+        return ctx
+
+    def setup(self, interp, case):
+        return [self.TOKENS[case["token"]]], {}, {"q": self.TOKENS[case["token"]]}
+
+    def post(self, interp, case, pre, outcome):
+        import json
+        ex, q = interp.ex, pre["q"]
+        try:
+            want = ("return", json.loads(q))
+        except json.JSONDecodeError:
+            want = ("raise", None)
+        if want[0] == "return":
+            ok = outcome[0] == "return" and outcome[1] == want[1] and type(outcome[1]) is type(want[1]) and json.dumps(outcome[1], sort_keys=True) == json.dumps(want[1], sort_keys=True)
+            ex.oblige(self.oname("ensures:a_valid_JSON_token_is_parsed_to_exactly_its_JSON_value"), z3.BoolVal(bool(ok)), note=repr((q, outcome))[:200])
+        else:
+            ex.oblige(self.oname("raises:JSONDecodeError_for_a_token_that_is_not_JSON"), z3.BoolVal(outcome[0] == "raise" and isinstance(outcome[1], json.JSONDecodeError)), note=repr((q, outcome))[:200])
+
+
+CONTRACTS += [ParseJson()]
